@@ -16,7 +16,7 @@ class Pat:
         if not self.via_let:
             return False
         depth = getattr(ctx, 'via_depth', 0)
-        if depth >= 4:
+        if depth >= 7:
             return False
         e2 = strip(e)
         if not isinstance(e2, dict):
@@ -440,6 +440,8 @@ class OR(Pat):
 
 
 class IF(Pat):
+    via_let = True
+
     def __init__(self, c, t, e=None):
         self.c, self.t, self.e = c, t, e
 
